@@ -98,10 +98,22 @@ def source_sets(sc):
         f.write(b"plain words\n" * 5)
     # a text log of several blocks at the default block size (lines that lie across a block end are written in two pieces)
     with open(os.path.join(d2, "big.log"), "wb") as f:
+        pos = 0
+        # (the timestamp of one head line lies ACROSS the end of the first default-size block, that of another ends on the
+        #  last byte of the second block, a third begins on the first byte of the fourth)
+        targets = {65536 - 10: None, 2 * 65536 - 29: None, 3 * 65536: None}
         for i in range(1300):
-            f.write(b"2023-04-02T07:06:%02d.%03d+00:00 src=G idx=%d %s\n" % (40 + i // 100, (i % 100) * 10, i, b"g" * (60 + (i * 37) % 150)))
-            if i % 9 == 4:
-                f.write(b"   second line of idx=%d %s\n" % (i, b"s" * (i % 120)))
+            ln = b"2023-04-02T07:06:%02d.%03d+00:00 src=G idx=%d %s\n" % (40 + i // 100, (i % 100) * 10, i, b"g" * (60 + (i * 37) % 150))
+            nxt = [t_ for t_ in targets if pos < t_ <= pos + len(ln) + 260 and t_ - pos >= 60]
+            if nxt:
+                ln = ln[:-1] + b"g" * (nxt[0] - pos - len(ln)) + b"\n" if nxt[0] - pos >= len(ln) else ln[:nxt[0] - pos - 1] + b"\n"
+                del targets[nxt[0]]
+            f.write(ln)
+            pos += len(ln)
+            if i % 9 == 4 and not any(pos < t_ <= pos + 400 for t_ in targets):
+                c_ = b"   second line of idx=%d %s\n" % (i, b"s" * (i % 120))
+                f.write(c_)
+                pos += len(c_)
     sets.append((d2, ["b.log", "u.journal", "long.log", silent3], []))
     sets.append((d2, ["big.log", "b.log"], []))
     # S3: messages with EMPTY lines inside them: every journal entry in the export rendering ends with one; a text message
